@@ -553,34 +553,59 @@ pub fn run_check(prop: &dyn Prop, env: &CheckEnv) -> i32 {
             continue;
         }
         n_viol += list.len() as u64;
-        let (scn, v) = &list[0];
-        let wd = Workdir::new(&ctx, 1000);
-        let mut small = scn.clone();
-        small.class = Some(class.clone());
-        small.detail = Some(v.detail.clone());
-        if !env.no_shrink && !class.ends_with("/timeout") {
-            small = crate::shrink::shrink(prop, &ctx, &wd, small, class);
-        }
-        drop(wd);
+        // A violation produced by real thread interleaving may need several attempts and not every
+        // instance reproduces equally well: try up to 4 instances of the class; for each, first the
+        // minimised scenario, then the scenario exactly as it was explored.
+        let sched = class.starts_with("C13") || class.contains("schedule");
+        let tries = if sched { 4 } else { 4 };
         let ch = hex(&sha256_(class.as_bytes())[..3]);
-        let path = replays.join(format!("{}-{}-{}-{}.json", prop.id(), env.seed, scn.index_no, ch));
-        std::fs::write(&path, serde_json::to_string_pretty(&small).unwrap()).expect("write replay");
-        // fresh-process replay must reproduce
         let mut reproduced = false;
-        // a violation caused by real thread interleaving may need several attempts (DESIGN §2.6)
-        let tries = 6;
-        for _ in 0..tries {
-            let st = std::process::Command::new(&env.self_exe)
-                .arg("replay")
-                .arg(&path)
-                .env("RBPSIM_SUT", &env.sut)
-                .env("RBPSIM_QUIET", "1")
-                .stdout(std::process::Stdio::null())
-                .status();
-            if let Ok(st) = st {
-                if st.code() == Some(1) {
-                    reproduced = true;
-                    break;
+        let mut path = replays.join("none");
+        let mut v = &list[0].1;
+        'cands: for (ci, (scn, vv)) in list.iter().take(4).enumerate() {
+            v = vv;
+            let wd = Workdir::new(&ctx, 1000);
+            let mut orig = scn.clone();
+            orig.class = Some(class.clone());
+            orig.detail = Some(vv.detail.clone());
+            let mut variants = Vec::new();
+            if !env.no_shrink && !class.ends_with("/timeout") {
+                variants.push(crate::shrink::shrink(prop, &ctx, &wd, orig.clone(), class));
+            }
+            variants.push(orig);
+            drop(wd);
+            for (vi, small) in variants.iter().enumerate() {
+                path = replays.join(format!("{}-{}-{}-{}{}.json", prop.id(), env.seed, scn.index_no, ch, if ci + vi > 0 { format!("-{}{}", ci, vi) } else { String::new() }));
+                std::fs::write(&path, serde_json::to_string_pretty(small).unwrap()).expect("write replay");
+                // schedule-dependent classes showed up under 16-way contention during exploration: replay
+                // them the same way (batches of 16 concurrent fresh processes), others one at a time
+                let batch = if sched { 16 } else { 1 };
+                let mut done = 0;
+                while done < tries * batch {
+                    let mut kids = Vec::new();
+                    for _ in 0..batch {
+                        if let Ok(c) = std::process::Command::new(&env.self_exe)
+                            .arg("replay")
+                            .arg(&path)
+                            .env("RBPSIM_SUT", &env.sut)
+                            .env("RBPSIM_QUIET", "1")
+                            .stdout(std::process::Stdio::null())
+                            .spawn()
+                        {
+                            kids.push(c);
+                        }
+                    }
+                    for mut c in kids {
+                        if let Ok(st) = c.wait() {
+                            if st.code() == Some(1) {
+                                reproduced = true;
+                            }
+                        }
+                    }
+                    done += batch;
+                    if reproduced {
+                        break 'cands;
+                    }
                 }
             }
         }
@@ -711,6 +736,35 @@ pub fn replay(prop: &dyn Prop, sut: &Path, scratch: &Path, scn: &Scenario) -> i3
         }
         if scn.class.as_ref().map(|c| *c == v.class).unwrap_or(true) {
             hit = true;
+        }
+    }
+    // schedule-dependent classes (real rayon interleaving, DESIGN §2.6): one quiet run often does not show
+    // them; repeat under 16-way contention like the exploration that found them
+    let sched = scn.class.as_ref().map(|c| c.starts_with("C13") || c.contains("schedule")).unwrap_or(false);
+    if !hit && sched && std::env::var("RBPSIM_QUIET").is_err() {
+        for round in 0..6 {
+            let found = std::sync::atomic::AtomicBool::new(false);
+            std::thread::scope(|sc| {
+                for w in 0..16 {
+                    let ctx = &ctx;
+                    let found = &found;
+                    let model = &model;
+                    sc.spawn(move || {
+                        let wd = Workdir::new(ctx, 100 + w);
+                        if let Ok(o) = exec_scenario(ctx, &wd, scn, &model.built) {
+                            let mut st = Stats::default();
+                            if prop.judge(scn, model, &o, &mut st).iter().any(|v| scn.class.as_ref().map(|c| *c == v.class).unwrap_or(true)) {
+                                found.store(true, Ordering::Relaxed);
+                            }
+                        }
+                    });
+                }
+            });
+            if found.load(Ordering::Relaxed) {
+                println!("reproduced under 16-way contention in round {}", round + 1);
+                hit = true;
+                break;
+            }
         }
     }
     if hit {
